@@ -914,6 +914,78 @@ func init() {
 				}
 			}
 		}
+		// Abort while a Go function the script called is about to panic, on a VM that recovers panics, the call being
+		// covered by a try statement of the script: the panic is delivered to the script's handler, and the abort is
+		// still not lost - Run returns the aborted error, not the value the handler produces
+		for _, handler := range []string{"catch", "finally", "catch-finally"} {
+			for _, where := range []string{"main", "function", "callback"} {
+				n++
+				body := map[string]string{
+					"catch":         "try { pw() } catch e { r = \"caught\" }",
+					"finally":       "try { try { pw() } finally { r = \"finally\" } } catch e2 { r = r + \"+outer\" }",
+					"catch-finally": "try { pw() } catch e { r = \"caught\" } finally { r = r + \"+finally\" }",
+				}[handler]
+				src := "global (pw, cb)\nr := \"none\"\n"
+				switch where {
+				case "main":
+					src += body + "\n"
+				case "function":
+					src += "g := func() { " + body + " }\ng()\n"
+				case "callback":
+					src += "g := func() { " + body + "; return r }\nr = cb(g)\n"
+				}
+				src += "for i := 0; i < 5; i++ { r = r + \".\" }\nreturn r\n"
+				bc, err := ugo.Compile([]byte(src), ugo.CompilerOptions{})
+				if err != nil {
+					return fmt.Errorf("%v\n%s", err, src)
+				}
+				reached, goOn := make(chan struct{}, 1), make(chan struct{})
+				pw := &ugo.Function{Name: "pw", Value: func(a ...ugo.Object) (ugo.Object, error) {
+					reached <- struct{}{}
+					<-goOn
+					panic("pw panics after the abort")
+				}}
+				vm := ugo.NewVM(bc).SetRecover(true)
+				done := make(chan string, 1)
+				go func() {
+					defer func() {
+						if p := recover(); p != nil {
+							done <- fmt.Sprint("PANIC escaped: ", p)
+						}
+					}()
+					ret, err := vm.Run(ugo.Map{"pw": pw, "cb": cbFuncFor(false)})
+					if classify(err) == "aborted" {
+						done <- ""
+					} else {
+						done <- fmt.Sprintf("Run returned %v / %v after Abort, not the aborted error", ret, errName(err))
+					}
+				}()
+				what := ""
+				select {
+				case <-reached:
+					vm.Abort()
+					close(goOn)
+					select {
+					case what = <-done:
+					case <-time.After(3 * time.Second):
+						what = "Run did not return within 3 s after Abort"
+						for i := 0; i < 2000; i++ {
+							vm.Abort()
+							time.Sleep(time.Millisecond)
+						}
+					}
+				case w := <-done:
+					what = "Run ended before the Go function was called: " + w
+				case <-time.After(5 * time.Second):
+					what = "the Go function was never called"
+				}
+				r := N{"pooled": handler, "k": where, "catch": "panic", "ok": what == "", "src": src}
+				if what != "" {
+					r["what"] = what
+				}
+				out.put(r)
+			}
+		}
 		out.put(N{"done": true, "n": n})
 		return nil
 	}
